@@ -126,6 +126,53 @@ def d2_text(ctx):
                         txt = unparse(t)
                         if any('len(%s)' % x in txt for x in sources) or any("%s[-1].endswith" % x in txt for x in sources):
                             guards.append(txt)
+            # the test must guarantee that the LAST parsed line is complete: either it is checked to end with a newline, or a further
+            # line is required to exist behind the block (the blank line that terminates a correlator)
+            strong = None
+            if guards:
+                import sympy as sp_
+                strong = False
+                up = None
+                for d in statements(f):
+                    if isinstance(d, ast.Assign) and isinstance(d.targets[0], ast.Name) and d.targets[0].id == src and isinstance(d.value, ast.Subscript) and isinstance(d.value.slice, ast.Slice):
+                        up = d.value.slice.upper
+                if up is None and isinstance(it, ast.Subscript) and isinstance(it.slice, ast.Slice):
+                    up = it.slice.upper
+                for r in statements(f):
+                    if isinstance(r, ast.Raise) and r.lineno < s.lineno:
+                        for t, pol in guards_of(m, r, stop=f):
+                            for c in ast.walk(t):
+                                if isinstance(c, ast.Call) and isinstance(c.func, ast.Attribute) and c.func.attr == 'endswith' and '[-1]' in unparse(c.func.value):
+                                    strong = True
+                                if isinstance(c, ast.Compare) and len(c.ops) == 1 and up is not None:
+                                    l_, r_ = c.left, c.comparators[0]
+                                    big = None
+                                    if isinstance(c.ops[0], ast.Gt) and unparse(r_).startswith('len('):
+                                        big = l_
+                                    elif isinstance(c.ops[0], ast.Lt) and unparse(l_).startswith('len('):
+                                        big = r_
+                                    if big is not None:
+                                        names_ = {}
+
+                                        def tx(e):
+                                            if isinstance(e, ast.Name):
+                                                return names_.setdefault(e.id, sp_.Symbol(e.id, integer=True))
+                                            if isinstance(e, ast.Constant) and isinstance(e.value, int):
+                                                return sp_.Integer(e.value)
+                                            if isinstance(e, ast.BinOp) and isinstance(e.op, (ast.Add, ast.Sub)):
+                                                return tx(e.left) + tx(e.right) if isinstance(e.op, ast.Add) else tx(e.left) - tx(e.right)
+                                            raise Unrecognised(unparse(e))
+                                        try:
+                                            dlt = sp_.simplify(tx(big) - tx(up))
+                                            if dlt.is_number and dlt >= 1:
+                                                strong = True
+                                        except Unrecognised:
+                                            pass
+            if guards and strong is False:
+                ctx.violated(rule, key + '-last-line', 'the completeness test (%s) only guarantees that %s lines exist, not that the last one is complete: a file cut inside the last data line of the block '
+                             'is parsed (the test must require one more line behind the block or a trailing newline)' % (guards[0], unparse(up) if up is not None else 'the parsed'), m.loc(s))
+            elif guards:
+                ctx.holds(rule, key + '-last-line', 'the test also guarantees that the last parsed line is complete', m.loc(s))
             ctx.check(rule, key, bool(guards), 'a raising completeness test (%s) precedes the parsing of the floats' % (guards[0] if guards else ''),
                       'the floats of a correlator block are parsed from `%s` without a preceding test that the block is complete: a file cut inside the block yields a '
                       'wrong (shortened) number or a shortened record without an error' % unparse(s.iter), m.loc(s))
@@ -187,5 +234,6 @@ SELFTEST = [
     ('json-handler', 'pyerrors/input/json.py', "        with gzip.open(fname, 'r') as fin:\n            d = json.load(fin)", "        try:\n            with gzip.open(fname, 'r') as fin:\n                d = json.load(fin)\n        except EOFError:\n            d = {'obsdata': []}", 'C18-D3'),
     ('xml-recover', 'pyerrors/input/dobs.py', "    root = et.fromstring(content)\n\n    _check(root.tag == 'OBSERVABLES')", "    root = et.fromstring(content, parser=et.XMLParser(recover=True))\n\n    _check(root.tag == 'OBSERVABLES')", 'C18-D3'),
     ('csv-lenient', 'pyerrors/input/pandas.py', "            re_import = pd.read_csv(f, keep_default_na=False)", "            re_import = pd.read_csv(f, keep_default_na=False, on_bad_lines='skip')", 'C18-D3'),
+    ('compact-check-weakened', 'pyerrors/input/sfcf.py', "            if (start_read + T + 1 > len(lines)):", "            if (start_read + T > len(lines)):", 'C18-D2'),
     ('benign-check-style', 'pyerrors/input/sfcf.py', "            if (start_read + T + 1 > len(lines)):", "            if len(lines) < start_read + T + 1:", 'BENIGN'),
 ]
